@@ -11,7 +11,7 @@ From Coq Require Import Permutation.
 From Coq Require String.
 Import String.StringSyntax.
 From Pan Require Import Base.Common Model.MetricTable Model.Config
-  Proofs.ConfigFacts Proofs.ConfigRoundTrip Proofs.ConfigExtra.
+  Proofs.ConfigFacts Proofs.ConfigRoundTrip Proofs.ConfigExtra Model.GroupCtor Proofs.GroupCtorFacts.
 Open Scope Z_scope.
 Local Open Scope string_scope.
 
@@ -126,3 +126,33 @@ Example C19_nonvacuous_defects_lose_settings :
       /\ res_is (decode T_wrong_attr (encode T_wrong_attr c))
                 (fun c' => match c_inst c', c_inst c with [DSC], [DSC; IOU; ASSD; RVD] => true | _, _ => false end) = true).
 Proof. split; [exact drop_m2o_breaks|exact wrong_attr_breaks]. Qed.
+
+(* ---- the constructor of the class groups (Model/GroupCtor.v): a user's dictionary may have keys that fold to ONE group name
+   (str(key).lower(): "Lesion" / "lesion", 7 / "7"); the later entry replaces the earlier one.  The constructor establishes the
+   class invariant the round-trip theorems start from, the object rebuilt from the saved dictionary is the same object and answers
+   for the same labels, and those are the labels of the groups that are IN the object (not of replaced ones). *)
+Theorem C19_group_constructor_establishes_invariant : forall entries,
+  Forall (fun e => ascii_str (fst e) = true) entries -> Forall (fun e => wf_lgroup (snd e) = true) entries ->
+  wf_groups (GList (ctor_dict entries)) = true.
+Proof. exact ctor_establishes_invariant. Qed.
+
+Theorem C19_group_constructor_rebuilt_from_saved_dictionary : forall entries,
+  Forall (fun e => ascii_str (fst e) = true) entries -> Forall (fun e => wf_lgroup (snd e) = true) entries ->
+  reconstructed entries = ctor_dict entries /\ ctor_labels (ctor_dict entries) = ctor_labels entries.
+Proof. exact reconstructed_same. Qed.
+
+Theorem C19_group_labels_are_those_of_kept_groups : forall entries x,
+  In x (ctor_labels entries) <-> exists ng, In ng (ctor_dict entries) /\ In x (g_labels (snd ng)).
+Proof. exact ctor_labels_are_kept_groups. Qed.
+
+Theorem C19_group_constructor_last_entry_wins : forall entries e k,
+  dget k (ctor_dict (entries ++ [e])) = if str_eqb k (lower (fst e)) then Some (snd e) else dget k (ctor_dict entries).
+Proof. exact ctor_last_wins. Qed.
+
+(* non-vacuity: {"Lesion": [1], "b": [3], "lesion": [2]} -- label 1 is gone, the position of the first key is kept *)
+Example C19_group_constructor_nonvacuous :
+  let lg l := {| g_kind := GPlain; g_labels := l; g_single := false |} in
+  let entries := [([76; 101; 115], lg [1]); ([98], lg [3]); ([108; 101; 115], lg [2])] in
+  ctor_dict entries = [([108; 101; 115], lg [2]); ([98], lg [3])] /\ ctor_labels entries = [2; 3]
+  /\ defined_for (ctor_labels entries) [1] = false.
+Proof. vm_compute. repeat split; reflexivity. Qed.
